@@ -694,4 +694,29 @@ Section Top.
     intros p Hp. subst r. destruct F as [_ [F2 [F3 _]]].
     rewrite wf_cb0. exact (proj2 (fin_rest_nil lines t0 s W0 F2 F3)).
   Qed.
+  Lemma total_thm : forall (lines : list L) (tail : Z) (sch : list Z),
+    exists r s, drive lines tail sch = Ret (r, s).
+  Proof.
+    intros lines tail sch. destruct (drive_fin lines tail sch) as [r [s [H _]]]. exists r, s. exact H.
+  Qed.
+
+  Lemma bounded_window_thm : forall (lines : list L) (tail : Z) (sch : list Z) (p : positive) (s : st L PS),
+    iter_pos p (init_st lines tail sch) = Next s ->
+    In (b_cap (buf s)) [10240; 20480; 40960; 81920; 163840] /\
+    0 <= avail (buf s) <= b_cap (buf s) /\ b_cap (buf s) <= MAX_CAP /\ 0 <= maxsp s <= MAX_CAP.
+  Proof.
+    intros lines tail sch p s H. pose proof (reach_wf' lines tail sch p s H) as W.
+    destruct (wfm_window lines tail s (wf_m _ _ _ _ _ _ _ _ _ _ _ W)) as [C R].
+    split; [|exact R]. unfold caps in C. cbn [In]. intuition.
+  Qed.
+
+  Lemma bounded_window_final_thm : forall (lines : list L) (tail : Z) (sch : list Z) r s,
+    drive lines tail sch = Ret (r, s) ->
+    In (b_cap (buf s)) [10240; 20480; 40960; 81920; 163840] /\ 0 <= maxsp s <= MAX_CAP.
+  Proof.
+    intros lines tail sch r s H. destruct (drive_fin lines tail sch) as [r' [s' [H1 [W _]]]].
+    rewrite H in H1. inversion H1; subst.
+    destruct (wfm_window lines tail s' W) as [C [_ [_ R]]].
+    split; [|exact R]. unfold caps in C. cbn [In]. intuition.
+  Qed.
 End Top.
